@@ -8,7 +8,7 @@ import contracts.general as G
 import contracts.standins_chunk as B
 
 PROVED = [CH.split_array, CH.chunk_split, CH.chunk_init_rows, CH.chunk_init_none, CH.chunk_init_other, G.diff, CH.concatenate2, CH.merge2,
-          STO.rechunker_receive_empty, STO.rechunker_receive_cached, STO.rechunker_flush_cached, STO.rechunker_flush_empty]
+          STO.rechunker_receive_empty, STO.rechunker_receive_cached, STO.rechunker_flush_cached, STO.rechunker_flush_empty, STO.get_splits]
 
 PROPERTY = Property(
     "C07", "proof",
